@@ -46,18 +46,34 @@ def scale(x, c: float):
     lo, hi = _iv(x)
     mant = f.numerator.bit_length()
     xb = max(abs(lo), abs(hi)).bit_length()
-    core.cur().float_sites.add(("mul-const", repr(c), (lo, hi), "exact" if mant + xb <= 53 else "inexact"))
-    return SymRatio(x * f.numerator, f.denominator)
+    exact = mant + xb <= 53
+    core.cur().float_sites.add(("mul-const", repr(c), (lo, hi), "exact" if exact else "inexact"))
+    err = 0
+    if not exact:
+        # |fl(c*x) - c*x| <= half an ulp of the largest product: 2^(E-53) for |c*x| < 2^E
+        E = int(abs(f) * max(abs(lo), abs(hi))).bit_length() + 1
+        if E >= 52:
+            raise Unsupported("float product beyond 2^52")
+        err = Fraction(1, 1 << (53 - E))
+    r = SymRatio(x * f.numerator, f.denominator, err)
+    r.src = (x, f)
+    return r
 
 
 class SymRatio:
     """n/d with d != 0 on this path."""
 
-    __slots__ = ("n", "d")
+    __slots__ = ("n", "d", "err", "src")
 
-    def __init__(self, n, d):
+    def __init__(self, n, d, err=0):
         self.n = n
         self.d = d
+        self.src = None  # (x, Fraction(c)) for a const*int product
+        self.err = err  # 0, or a bound 1/2^k on |IEEE value - n/d| (inexact const*int product)
+
+    def _exact_only(self, op):
+        if self.err:
+            raise Unsupported("%s of an inexact float product (only round() carries the error band)" % op)
 
     def _site(self, op):
         core.cur().float_sites.add((op, _rng(self.n), _rng(self.d)))
@@ -78,16 +94,19 @@ class SymRatio:
         return -self.n, -d
 
     def __ceil__(self):
+        self._exact_only("ceil")
         self._site("ceil")
         n, d = self._posd()
         return -((-n) // d)
 
     def __floor__(self):
+        self._exact_only("floor")
         self._site("floor")
         n, d = self._posd()
         return n // d
 
     def __trunc__(self):
+        self._exact_only("trunc")
         self._site("trunc")
         n, d = self._posd()
         q = n // d
@@ -108,13 +127,42 @@ class SymRatio:
             raise Unsupported("round(x, n) on ratio")
         self._site("round")
         n, d = self._posd()
+        if self.err:
+            return self._round_banded(n, d)
         # round half to even
         q = (2 * n + d) // (2 * d)
         if bool((2 * n + d) % (2 * d) == 0) and bool(q % 2 != 0):
             return q - 1
         return q
 
+    def _round_banded(self, n, d):
+        """round(fl(c*x)) for an inexact product: a fresh integer r constrained by a band that
+        contains the IEEE result.  With p/q a small rational next to c:
+            |r - fl(c*x)| <= 1/2,  |fl(c*x) - c*x| <= err,  |c*x - (p/q)*x| <= |c - p/q| * max|x|
+        hence |q*r - p*x| <= floor(q/2 + q*(err + |c - p/q|*max|x|))  (the left side is an integer)."""
+        from fractions import Fraction
+        from math import floor
+
+        from .api import And
+
+        ctx = core.cur()
+        if self.src is None:
+            raise Unsupported("banded round without a const*int source")
+        x, f = self.src
+        pq = f.limit_denominator(1 << 12)
+        p, q = pq.numerator, pq.denominator
+        lo, hi = _iv(x)
+        B = floor(Fraction(q, 2) + q * (self.err + abs(f - pq) * max(abs(lo), abs(hi))))
+        nlo, nhi = _iv(n)
+        r = ctx.int("fp_round#", nlo // d - 1, -((-nhi) // d) + 1)
+        ctx.assume(And(q * r - p * x <= B, p * x - q * r <= B), "round() band")
+        core.cur().float_sites.add(("round-band", "%d/%d" % (p, q), B, (lo, hi)))
+        return r
+
     def _cmp(self, o, op):
+        self._exact_only("comparison")
+        if isinstance(o, SymRatio):
+            o._exact_only("comparison")
         if isinstance(o, SymRatio):
             n1, d1 = self._posd()
             n2, d2 = o._posd()
@@ -175,6 +223,7 @@ class SymRatio:
         raise Unsupported("float() of symbolic ratio")
 
     def __truediv__(self, o):
+        self._exact_only("division")
         if isinstance(o, (int, SymInt)):
             if bool(o == 0):
                 raise ZeroDivisionError("float division by zero")
@@ -182,6 +231,7 @@ class SymRatio:
         raise Unsupported("ratio / %s" % type(o).__name__)
 
     def __mul__(self, o):
+        self._exact_only("product")
         if isinstance(o, (int, SymInt)):
             return SymRatio(self.n * o, self.d)
         raise Unsupported("ratio * %s" % type(o).__name__)
@@ -189,6 +239,7 @@ class SymRatio:
     __rmul__ = __mul__
 
     def __add__(self, o):
+        self._exact_only("sum")
         if isinstance(o, (int, SymInt)):
             return SymRatio(self.n + o * self.d, self.d)
         raise Unsupported("ratio + %s" % type(o).__name__)
